@@ -10,7 +10,10 @@ denote the same molecule by construction.  Checked on every case:
 
   (1) the molecule after the last step is isomorphic (element + charge, or atomname for a coarse last level; bond
       orders; hydrogens included) to the molecule of the flat two-level string; the fine graph of the step before the
-      last is isomorphic (atomname, orders) to the flat string's base graph as constructed;
+      last is isomorphic (atomname, orders) to the flat string's base graph as constructed; for typed-in strings and
+      regular polymers (unlabelled `>`/`<`/`$`, repeated names) the comparison is made only when both resolutions
+      spent every unit of base-graph order on a bond - otherwise the first-match search, whose order the statement
+      leaves open, decides what the strings denote;
   (2) each step's coarse graph is the previous step's fine graph: same node keys, same edges and orders, and
       fragname(n) == previous atomname(n);
   (3) the mapping (C02) and bonding (C03) guarantees hold at every step (specs/resolver_spec);
@@ -18,9 +21,9 @@ denote the same molecule by construction.  Checked on every case:
       return (coarse graph, fine graph, membership graphs).
 
 Typed-in strings: the docs' mPEG pair (two- and three-level, claimed equivalent), the docs' four-level example and the
-class docstring example (no flat counterpart: clauses 2-4 only), the strings of test_layering.py whose references the
-test computes but never asserts (flat strings derived by replacing the first level by hand), regular polymers with
-repeated intermediate fragment names.
+class docstring example (no flat counterpart: clauses 2-4 only), the two `!`-free strings of test_layering.py whose
+references the test computes but never asserts (its first string has a typo `[#A2c)`, written `[#A2c]` here; flat
+strings derived by replacing the first level by hand), regular polymers with repeated intermediate fragment names.
 
 Scope decisions: legacy=True only (with labels ignored the grouped and the flat string may legitimately pair
 different atoms); no `!`; no virtual nodes inside groups; crossing edges have order >= 1 (an order-0 descriptor is
@@ -41,10 +44,10 @@ BOUNDS = {
     'quick': {'flat_base_graphs': 'all connected graphs with 2..4 nodes, all single + first two edges in turn order 2', 'repeats_per_cell': 2,
               'intermediate_levels': '1..2 (exhaustive part), 1..3 (random part)', 'group_size': '<= 3 (first level), <= 2 (above)',
               'last_level': ['all-atom', 'coarse'], 'typed_in': 7, 'regular_polymers': '3 fragment sets x (2x2, 3x2, 2x3) (+ second grouping)',
-              'random': '40 trees with 4..9 nodes'},
+              'random': '60 trees with 4..9 nodes'},
     'thorough': {'flat_base_graphs': 'all connected graphs with 2..5 nodes, same order variants', 'repeats_per_cell': 4,
                  'intermediate_levels': '1..3', 'group_size': '<= 3 / <= 2', 'last_level': ['all-atom', 'coarse'], 'typed_in': 7,
-                 'regular_polymers': '3 fragment sets x 6 shapes', 'random': '1200 trees with 4..9 nodes'},
+                 'regular_polymers': '3 fragment sets x 6 shapes', 'random': '3000 trees with 4..9 nodes'},
 }
 EXHAUSTIVE = {'quick': False, 'thorough': False}
 RULE = ('flat two-level description (atlas graph x order variant x unique-label bottom fragments, all-atom or coarse) x seeded '
@@ -83,6 +86,11 @@ def _iso(g, h, all_atom):
     return nx.is_isomorphic(g, h, node_match=nm, edge_match=lambda a, b: a.get('order') == b.get('order'))
 
 
+def _fully_bonded(coarse, fine):
+    want = sum(o for u, v, o in coarse.edges(data='order') if o and rs.members(fine, u) and rs.members(fine, v))
+    return want == sum(1 for _, _, d in fine.edges(data=True) if 'bonding' in d)
+
+
 def check_case(case):
     import cgsmiles
     key = repr((gr.full_string(case), case['all_atom']))
@@ -101,7 +109,7 @@ def check_case(case):
     try:
         templates = gr.read_templates(cgsmiles, case)
         # --- driver A: resolve_iter, with the per-step guarantees
-        dumps_a, prev, final_a, before_last = [], None, None, None
+        dumps_a, prev, final_a, before_last, last_coarse = [], None, None, None, None
         multi_node_fragment = False
         for step, (coarse, fine) in enumerate(gr.make_resolver(cgsmiles, case).resolve_iter()):
             all_atom = case['all_atom'] and step == nlev - 1
@@ -126,7 +134,7 @@ def check_case(case):
             prev = _snapshot(fine)
             if step == nlev - 2:
                 before_last = fine.copy()
-            final_a = fine
+            final_a, last_coarse = fine, coarse
         if len(dumps_a) != nlev:
             fail('number-of-steps', 'resolve_iter yielded %d pairs for %d fragment levels' % (len(dumps_a), nlev))
         # --- driver B: resolve() repeated
@@ -145,8 +153,12 @@ def check_case(case):
             fail('drivers-disagree', 'resolve_all() differs from the last pair of resolve_iter()')
         # --- the flat string
         if flat_case is not None:
-            _, flat_fine = gr.make_resolver(cgsmiles, flat_case).resolve_all()
-            if not _iso(final_a, flat_fine, case['all_atom']):
+            flat_coarse, flat_fine = gr.make_resolver(cgsmiles, flat_case).resolve_all()
+            # typed-in strings and regular polymers use unlabelled / repeated descriptors: when the first-match search
+            # leaves a unit of order without a bond in either string, the two are not known to denote the same molecule
+            comparable = case['design'] == 'layered' and 'repeated-names' not in case['tags'] or \
+                (_fully_bonded(last_coarse, final_a) and _fully_bonded(flat_coarse, flat_fine))
+            if comparable and not _iso(final_a, flat_fine, case['all_atom']):
                 fail('not-isomorphic-to-flat', 'layered result (%d nodes, %d edges) vs flat %s (%d nodes, %d edges)' % (
                     final_a.number_of_nodes(), final_a.number_of_edges(), gr.full_string(flat_case),
                     flat_fine.number_of_nodes(), flat_fine.number_of_edges()))
